@@ -12,6 +12,13 @@ CHECKS = {
  'C07': dict(
    text='For all complex source voltages, all factors a, all frequencies and all non-singular system matrices up to 4x4 (larger: the concrete matrix of a catalogue member), homogeneity, superposition and the V/I, Re(VI*)/2 source data are decided by z3 as identities; bounded by the listed geometries and source placements.',
    design='DESIGN.md 3 (C07)'),
+ 'C09': dict(
+   text='For every wire graph of the bound (all set partitions of the labelled ends of up to 3, thorough 4, wires; with and without ground) and ALL complex pulse currents, z3 decides that each printed junction-end current is the total through that end, that printed inflows sum to zero and that E lines sit exactly at free ends. One known finding (first-end star) is recorded.',
+   design='DESIGN.md 3 (C09)'),
+ 'C16': dict(
+   text='For all finite IEEE doubles start/increment in the stated ranges and each listed count, the table sizes are decided bit-precisely in QF_FP on the real grid construction and the point values under the standard model of floating-point arithmetic; far-field angle tables likewise.',
+   design='DESIGN.md 3 (C16)',
+   technique='symbolic execution of the real grid/angle code on z3 Float64 terms (counts, bit-precise) and on reals with per-operation rounding-error variables (values); z3 decides per count'),
  'C08': dict(
    text='For all load values, frequencies and (for the system-level clauses) all non-singular system matrices within the stated sizes, '
         'z3 finds no input for which a load deviates from the series element it describes; bounded by catalogue geometries and matrix size.',
